@@ -11,6 +11,8 @@ import (
 	"sync/atomic"
 	"testing"
 	"time"
+
+	"verif/sim/simrt"
 )
 
 // WorkerIn is the job description passed by cmd/check (JSON in VERIF_JOB).
@@ -27,6 +29,7 @@ type WorkerIn struct {
 	ReplayDir string `json:"replay_dir"`
 	Out       string `json:"out"`
 	MaxSteps  int    `json:"max_steps"`
+	RawLib    bool   `json:"raw_lib,omitempty"` // uninstrumented cross-check
 }
 
 // Sample is a written-out case for the evidence file.
@@ -196,6 +199,7 @@ func RunWorker(t *testing.T, scenarios map[string]*Scenario) {
 	if in.MaxSteps == 0 {
 		in.MaxSteps = 30000
 	}
+	simrt.RawLib = in.RawLib
 	Watchdog(60 * time.Second)
 	start := time.Now()
 	out := &WorkerOut{Prop: in.Prop, Worker: in.Worker, Faults: map[string]int{}, Probes: map[string]int{}, Cover: map[string]int{}, Policies: map[string]int{}}
@@ -307,7 +311,12 @@ func RunWorker(t *testing.T, scenarios map[string]*Scenario) {
 				f := &Found{Violation: *r.Viol, Count: 1}
 				a.found[sig] = f
 				out.Found = append(out.Found, f)
-				minimise(t, sc, &in, p, r, seed, runID, f, out)
+				if in.RawLib {
+					// not replayable: keep the unminimised plan as the report
+					f.Replay = "(uninstrumented cross-check: not replayable) plan=" + p.String()
+				} else {
+					minimise(t, sc, &in, p, r, seed, runID, f, out)
+				}
 			}
 		}
 		return r
